@@ -182,6 +182,9 @@ pub fn run(tier: Tier) -> Report {
 }
 
 pub fn replay(_sub: &str, w: &Value) -> Result<String, String> {
+  if w["explorer"] == "e3" {
+    return crate::c12_world::replay(w);
+  }
   let name = w["harness"].as_str().ok_or("no harness in witness (E1 witnesses: re-run ./check C12)")?;
   let choices: Vec<usize> = w["choices"].as_array().ok_or("no choices")?.iter().map(|x| x.as_u64().unwrap_or(0) as usize).collect();
   let h = harnesses(Tier::Thorough).into_iter().find(|h| h.name == name).ok_or("unknown harness")?;
